@@ -29,7 +29,7 @@ CORR = ["Corr/FsCorr.v"]
 
 # ------------------------------------------------------------------ building
 def build_case(run, shoot, mod, idx, rng, cmd=None, force_mode=None, force_invoke=None, expect_fail=None,
-               traced=True, fixed=False, force_kinds=(), supfix=False, obstacle=None):
+               traced=True, fixed=False, force_kinds=(), supfix=False, obstacle=None, nothing=False):
     """create the directory state of one case and run shoot on it under strace.
     returns the case dict (JSON-able except for bytes, which are latin-1 strings)"""
     cmd = cmd or fsgen.CMDS[idx % 4]
@@ -38,8 +38,12 @@ def build_case(run, shoot, mod, idx, rng, cmd=None, force_mode=None, force_invok
         shutil.rmtree(root)
     (root / "p").mkdir(parents=True)
     p = fsgen.gen_pkg(rng, cmd)
+    if nothing:
+        # the package declares only types the -file / -type=* selection skips: the run generates nothing;
+        # stale outputs of the same subcommand are planted next to it (main returns before g.Clean())
+        p.nothing, p.extra = True, {}
     # history of earlier runs + the final invocation
-    nhist = rng.choice([0, 1, 1, 2, 2, 3])
+    nhist = 0 if nothing else rng.choice([0, 1, 1, 2, 2, 3])
     hist = [fsgen.gen_inv(rng, p, root, history=True) for _ in range(nhist)]
     hist = [h for h in hist if h.mode != "star_space"]
     if force_mode == "getset_multi":
@@ -139,7 +143,7 @@ def build_case(run, shoot, mod, idx, rng, cmd=None, force_mode=None, force_invok
         "cwd": str(final.cwd(root).relative_to(root)) or ".", "root_hint": str(root),
         "clean": final.clean_active() and not fail, "dirdot": final.dirdot(), "fixed": fixed, "supfix": supfix,
         "sel": [] if fail else final.selection(), "expect_ok": not fail, "fail": fail,
-        "sources": files, "history": hist_log, "planted": planted, "links": links, "obstacle": obst,
+        "sources": files, "history": hist_log, "planted": planted, "links": links, "obstacle": obst, "nothing": nothing,
         "before": before, "after": after, "kept": kept, "ops": ops, "outside_trace": outside,
         "rc": res["rc"], "stderr": res["err"][-1500:], "timed_out": res["timed_out"],
     }
@@ -820,6 +824,12 @@ def case_plan(run, fixed=False):
         for j in range(2 if run.thorough() else 1):
             plan.append((ci, tmodes[(ci + run.seed + 3 * j) % len(tmodes)],
                          fsgen.TRAIL_INVOKE[(ci + run.seed + j) % 2], None, (), None))
+    # nothing eligible in the package: -type=* (with its generate line) and -file runs generate nothing, next to stale
+    # outputs of the same subcommand (found by the translation tie: main returns before g.Clean())
+    for ci in range(4):
+        for j in range(3 if run.thorough() else 1):
+            plan.append((ci, ["star", "file", "star"][(ci + run.seed + j) % 3], ["pkg", "parent"][(ci + j) % 2], None,
+                         ("stale_same_cmd", "stale_same_cmd_file", "stale_no_newline", "hand_lookalike"), "NOTHING"))
     # the name of an output pre-exists as a symbolic link (inside / outside / dangling) or as a second name of a
     # hand-written file
     for k, ob in enumerate(fsgen.OBSTACLES):
@@ -864,17 +874,19 @@ def main(run):
     def one(i):
         ci, mode, invoke, fail, fkinds = plan[i][:5]
         ob = plan[i][5] if len(plan[i]) > 5 else None
+        nothing = ob == "NOTHING"
+        ob = None if nothing else ob
         for attempt in range(3):
             # a case is a function of its seed: a traced run that does not finish in time (seen once in
             # ~1000 runs on a heavily loaded machine) is rebuilt from scratch and repeated
             c = build_case(run, shoot, mod, i, random.Random(seeds[i]), cmd=fsgen.CMDS[ci], force_mode=mode,
-                           force_invoke=invoke, expect_fail=fail, fixed=fixed, force_kinds=fkinds, supfix=supfix, obstacle=ob)
+                           force_invoke=invoke, expect_fail=fail, fixed=fixed, force_kinds=fkinds, supfix=supfix, obstacle=ob, nothing=nothing)
             if not c["timed_out"]:
                 return c
             retried.append(i)
         # three timeouts under strace: does shoot itself terminate on this input?
         c2 = build_case(run, shoot, mod, i, random.Random(seeds[i]), cmd=fsgen.CMDS[ci], force_mode=mode,
-                        force_invoke=invoke, expect_fail=fail, traced=False, fixed=fixed, force_kinds=fkinds, supfix=supfix, obstacle=ob)
+                        force_invoke=invoke, expect_fail=fail, traced=False, fixed=fixed, force_kinds=fkinds, supfix=supfix, obstacle=ob, nothing=nothing)
         if c2["timed_out"]:
             c2["nonterminating"] = True
             return c2
@@ -1051,6 +1063,7 @@ def main(run):
         "cases_with_replaced_outputs": count(lambda c: any(o[0] == "Rename" and o[2] in {n for n, _, _ in pkg_files(c["before"])} for o in c["ops"])),
         "cases_with_victims": count(lambda c: any(o[0] == "Unlink" for o in c["ops"])),
         "cases_with_hard_links": count(lambda c: bool(c["links"])),
+        "cases_generating_nothing_next_to_stale_outputs": count(lambda c: c.get("nothing")),
         "cases_with_flags_after_dir_from_a_twin_package": count(lambda c: c["invoke"] in fsgen.TRAIL_INVOKE),
         "entries_at_output_names": {ob: count(lambda c, ob=ob: ob in (c.get("obstacle") or {}).values()) for ob in fsgen.OBSTACLES},
         "cases_rejected_before_writing": count(lambda c: not c["expect_ok"]),
